@@ -147,6 +147,89 @@ Fixpoint slices_mask (shape : list Z) (sl : list slice) (i : idx) : bool :=
   | _, _ => true
   end.
 
+(* ---------- views with integer entries (they reach compute_statistic through IndexedData and the public API) ---------- *)
+
+Inductive ventry := VInt (i : Z) | VSlice (s : slice).
+
+(* what a view does to one axis: fix a position (the axis disappears) or select positions *)
+Inductive axis_sel := Fixed (p : Z) | Positions (l : list Z).
+
+Definition norm_index (i n : Z) : Z := if i <? 0 then i + n else i.
+
+Fixpoint view_sel (shape : list Z) (view : list ventry) : list axis_sel :=
+  match shape with
+  | [] => []
+  | n :: shape' =>
+    match view with
+    | [] => Positions (range0 n) :: view_sel shape' []
+    | VInt i :: view' => Fixed (norm_index i n) :: view_sel shape' view'
+    | VSlice s :: view' => Positions (slice_elems s n) :: view_sel shape' view'
+    end
+  end.
+
+Fixpoint sel_shape (sels : list axis_sel) : list Z :=
+  match sels with
+  | [] => []
+  | Fixed _ :: r => sel_shape r
+  | Positions l :: r => zlen l :: sel_shape r
+  end.
+
+Fixpoint to_under_e (sels : list axis_sel) (j : idx) : idx :=
+  match sels with
+  | [] => []
+  | Fixed p :: r => p :: to_under_e r j
+  | Positions l :: r =>
+    match j with
+    | i :: j' => nth (Z.to_nat i) l 0 :: to_under_e r j'
+    | [] => []
+    end
+  end.
+
+(* the recombined view: idim runs over the axes of the data, mask_idim (= the position in sub) only over
+   those the view keeps; an integer entry is passed through *)
+Fixpoint new_view_e (shape : list Z) (view : list ventry) (sub : list (Z * Z)) : option (list ventry) :=
+  match shape with
+  | [] => Some []
+  | n :: shape' =>
+    match view with
+    | [] =>
+      match sub with
+      | (ss, se) :: sub' =>
+        match new_view_e shape' [] sub' with
+        | Some r => Some (VSlice (Slice (Some ss) (Some se) None) :: r)
+        | None => None
+        end
+      | [] => Some []
+      end
+    | VInt i :: view' =>
+      match new_view_e shape' view' sub with
+      | Some r => Some (VInt i :: r)
+      | None => None
+      end
+    | VSlice v :: view' =>
+      if step_not_one v then None
+      else match sub with
+           | (ss, se) :: sub' =>
+             match slice_indices v n with
+             | Some (view_start, _, _) =>
+               match new_view_e shape' view' sub' with
+               | Some r => Some (VSlice (Slice (Some (view_start + ss)) (Some (view_start + se)) None) :: r)
+               | None => None
+               end
+             | None => None
+             end
+           | [] => Some []
+           end
+    end
+  end.
+
+Fixpoint all_slices (view : list ventry) : option (list slice) :=
+  match view with
+  | [] => Some []
+  | VSlice s :: v' => match all_slices v' with Some r => Some (s :: r) | None => None end
+  | VInt _ :: _ => None
+  end.
+
 Inductive selection :=
 | SelNone
 | SelMask (m : idx -> bool)
@@ -198,6 +281,41 @@ Section Stat.
           let csh := vshape pos' in
           let data' := fun j => a (to_under pos' j) in
           let mc := fun j => mv (zadd j (map fst sub)) in          (* mask[subarray_slices] *)
+          let r := reduce csh data' (fun j => mc j && filt (data' j)) red in
+          (out_shape vsh red, pad (out_pairs sub red) r)
+        end
+      end
+    end.
+
+  (* the same, for views that may contain integers (axes refer to the viewed array) *)
+  Definition textbook_e (shape : list Z) (a : idx -> A) (filt : A -> bool) (m : idx -> bool)
+             (view : list ventry) (red : list bool) : list Z * (idx -> res) :=
+    let sels := view_sel shape view in
+    let vsh := sel_shape sels in
+    (out_shape vsh red,
+     reduce vsh (fun j => a (to_under_e sels j)) (fun j => m (to_under_e sels j) && filt (a (to_under_e sels j))) red).
+
+  Definition stat_view_e (shape : list Z) (a : idx -> A) (filt : A -> bool) (m : option (idx -> bool))
+             (view : list ventry) (red : list bool) : list Z * (idx -> res) :=
+    let sels := view_sel shape view in
+    let vsh := sel_shape sels in
+    let data := fun j => a (to_under_e sels j) in
+    match m with
+    | None => (out_shape vsh red, reduce vsh data (fun j => filt (data j)) red)
+    | Some m =>
+      let mv := fun j => m (to_under_e sels j) in
+      let trues := filter mv (box vsh) in
+      match trues with
+      | [] => (out_shape vsh red, fun _ => nan)
+      | _ :: _ =>
+        let sub := bbox (length vsh) trues in
+        match new_view_e shape view sub with
+        | None => (out_shape vsh red, reduce vsh data (fun j => mv j && filt (data j)) red)
+        | Some nv =>
+          let sels' := view_sel shape nv in
+          let csh := sel_shape sels' in
+          let data' := fun j => a (to_under_e sels' j) in
+          let mc := fun j => mv (zadd j (map fst sub)) in
           let r := reduce csh data' (fun j => mc j && filt (data' j)) red in
           (out_shape vsh red, pad (out_pairs sub red) r)
         end
@@ -261,6 +379,20 @@ Section Stat.
       | _, _, _ =>
         Ok (stat_view shape a filt (mask_of shape s) (match view with None => [] | Some v => v end) red)
       end.
+  (* entry point for views that may contain integers *)
+  Definition compute_statistic_e (fuel : nat) (shape : list Z) (a : idx -> A) (filt : A -> bool) (s : selection)
+             (view : option (list ventry)) (axes : option (list Z)) (n_chunk_max : Z)
+    : result (list Z * (idx -> res)) :=
+    match view with
+    | None => compute_statistic fuel shape a filt s None axes n_chunk_max
+    | Some v =>
+      match all_slices v with
+      | Some sl => compute_statistic fuel shape a filt s (Some sl) axes n_chunk_max
+      | None =>
+        let red := red_of_axes (zlen (sel_shape (view_sel shape v))) axes in
+        Ok (stat_view_e shape a filt (mask_of shape s) v red)
+      end
+    end.
 End Stat.
 
 (* ---------- histograms ---------- *)
@@ -361,6 +493,10 @@ Definition dec_slice (t : tree) : slice :=
 Definition dec_slices (t : tree) : list slice := map dec_slice (kids t).
 Definition dec_opt_slices (t : tree) : option (list slice) :=
   match t with T 0 _ => None | T _ l => Some (map dec_slice l) end.
+Definition dec_ventry (t : tree) : ventry :=
+  match t with T 1 (T i _ :: _) => VInt i | _ => VSlice (dec_slice t) end.
+Definition dec_opt_view (t : tree) : option (list ventry) :=
+  match t with T 0 _ => None | T _ l => Some (map dec_ventry l) end.
 Definition dec_optl (t : tree) : option (list Z) :=
   match t with T 0 _ => None | T _ l => Some (map tag l) end.
 Definition dec_q (t : tree) : Q :=
@@ -381,7 +517,7 @@ Definition fuel_for (shape : list Z) : nat := S (Z.to_nat (zprod (map (fun n => 
 
 (* statistic case: values are identified with their flat position in the full array;
    R returns the list of positions of the kept values of the lane ([] = NaN) *)
-Definition run_stat (shape : list Z) (view : option (list slice)) (selt : tree) (keepflags : list bool)
+Definition run_stat (shape : list Z) (view : option (list ventry)) (selt : tree) (keepflags : list bool)
            (axes : option (list Z)) (ncm : Z) : tree :=
   let a := fun i => flat_index shape i in
   let filt := fun c => nthb keepflags c in
@@ -390,7 +526,7 @@ Definition run_stat (shape : list Z) (view : option (list slice)) (selt : tree) 
            | T 1 [mk] => let mb := to_bools mk in SelMask (fun i => nthb mb (flat_index shape i))
            | T _ l => SelSlices (map dec_slice l)
            end in
-  match compute_statistic Z (list Z) (fun l => l) [] [-1] (fuel_for shape) shape a filt s view axes ncm with
+  match compute_statistic_e Z (list Z) (fun l => l) [] [-1] (fuel_for shape) shape a filt s view axes ncm with
   | Err e => err e
   | Ok (osh, r) => T 1 [zs osh; T 0 (map (fun o => zs (r o)) (box osh))]
   end.
@@ -403,7 +539,7 @@ Definition dec_pt2 (t : tree) : option Q * option Q * bool * Q :=
 Definition run_case (t : tree) : tree :=
   match t with
   | T 1 [sh; vw; selt; kf; ax; T ncm _] =>
-      run_stat (to_zs sh) (dec_opt_slices vw) selt (to_bools kf) (dec_optl ax) ncm
+      run_stat (to_zs sh) (dec_opt_view vw) selt (to_bools kf) (dec_optl ax) ncm
   | T 2 [T lg _; lo; hi; llo; lhi; T n _; T _ pts] =>
       match histogram1 (negb (lg =? 0)) (dec_q lo) (dec_q hi) (dec_q llo) (dec_q lhi) n (map dec_pt1 pts) with
       | HZeros => T 2 []
